@@ -747,6 +747,12 @@ def generate(seed, tier):
             # the same document several times in one stream (what a log or a stream of records looks like)
             docs = [r.choice([d for d in VALID_DOCS if d != 'bigmb'])] * r.randint(2, 5) + docs[:1]
             r.shuffle(docs)
+        if r.random() < 0.1:
+            # a LONG stream of records (what a log looks like): a short pattern of small documents repeated 30-150 times;
+            # anything that is counted, budgeted, cached or recycled across documents needs length to show
+            pat = [r.choice(['many_aliases', 'many_aliases', 'anchor', 'merge', 'tag_e', 'map', 'rec_seq', 'types', 'keys', 'plain']) for _ in range(r.randint(1, 3))]
+            pat = [d for d in pat if d in VALID_DOCS] or ['anchor']
+            docs = (pat * 150)[:r.choice([30, 60, 100, 150])]
         return {'mode': 'stream_load', 'docs': docs, 'api': r.choice(GEN_APIS), 'cls': r.choice(LOADERS),
                 'form': r.choice(['str', 'bytes', 'bstream', 'tstream']), 'chunk': r.choice([1, 3, 16, 100, None])}
     if x < 0.19:
@@ -779,6 +785,8 @@ def generate(seed, tier):
         vals = [r.choice([v for v in VALUE_IDS if not (v == 'set' and opts == 'unsorted')]) for _ in range(n)]
         if r.random() < 0.5:
             vals = related_values(r, n, opts == 'unsorted')
+        if r.random() < 0.1:
+            vals = (vals * 150)[:r.choice([30, 60, 100, 150])]       # a long stream of records
         return {'mode': 'stream_dump', 'vals': vals, 'cls': r.choice(DUMPERS[:4]), 'opts': opts}
     # swarm: per-run subset of step kinds
     kinds = {'call': 5, 'fault': r.choice([0, 1, 2]), 'interrupt': r.choice([0, 1, 2]), 'gen': r.choice([0, 2, 4]),
